@@ -13,7 +13,7 @@ ObsContent(e) == Content(ObsU(e.post.mirr), ObsU(e.post.msig), [u \in Users |-> 
 ObsPrimWant(e) == <<ObsU(e.post.prim), [u \in Users |-> IF e.post.psig[u] # 0 /\ ~e.post.pexp[u] THEN e.post.psig[u] ELSE 0]>>
 
 Guards(e) ==
-    CASE e.ev \in {"save", "resave", "delete", "sign", "unsign"} ->
+    CASE e.ev \in {"save", "save_parallel", "resave", "delete", "sign", "unsign"} ->
             \* round trip: what was saved is what is read back; the other rows are untouched
             {<<"G_C15_RoundTrip", e.out.readback = e.out.wrote>>,
              <<"G_C15_OthersUntouched", \A u \in Users \ {e.args.user} : e.post.prim[u] = prim[u] /\ e.post.psig[u] = psig[u]>>}
